@@ -459,26 +459,13 @@ for _n in ["scope5", "scope_deep", "lcdrop_open", "scope_smp"]:
 # set_reporter() called again while traces are open (wave 10: receivers adopted by the collector object were lost with it):
 # the collector object is replaced, queues and handles stay; in the default configuration nothing recorded afterwards may
 # be lost (no attachments through handles here: what is parked for a still-open span goes with the old collector)
+LIT_REINSTALL = dict(
+    threads=[1, 2], born=[1, 2], K=8, MaxCycles=3, MaxFlush=1, menu=["reinstall"],
+    prog={1: [S("root", tr=1, smp=True), S("child", ps=[101]), S("drop", h=102), S("drop", h=101), S("exit")],
+          2: [S("root", tr=2, smp=True), S("setlp", h=201), S("lenter"), S("lexit"), S("dropg"), S("drop", h=201)]})
 INSTANCES.update({
-    "reinst4": (seq(["root", "child", "drop", "setlp", "dropg", "lenter", "lexit", "reinstall"], MaxOps=4, MaxSpans=3, MaxRoots=2, MaxTraces=2,
-                    MaxScopes=1, MaxLocal=1, MaxCycles=2, MaxFlush=1, distinct_ops=True), "terminal", {}),
+    # every placement of one set_reporter() and of the collector's steps among the calls of two threads that live across it
+    "lit_reinstall": (LIT_REINSTALL, "edge", {}),
     "reinst5": (seq(["root", "child", "drop", "setlp", "dropg", "lenter", "lexit", "reinstall"], MaxOps=5, MaxSpans=3, MaxRoots=2, MaxTraces=2,
                     MaxScopes=1, MaxLocal=1, MaxCycles=2, MaxFlush=1, distinct_ops=True), "terminal", {}),
 })
-
-# a long-lived trace of one thread next to many short traces of another (wave 10: collect ids handed out in per-thread
-# blocks of 64 with an off-by-one at the block boundary - the 65th trace of a thread shares its collect id with the first
-# trace of the thread that reserved the next block).  Internal block / batch sizes need runs that are long in one dimension.
-def _manyroots(n):
-    st = [dict(ev="spawn", t=1), dict(ev="spawn", t=2),
-          dict(_c("root", h=101, tr=1, smp=True), t=1), dict(_c("drop", h=101), t=1), dict(ev="push", t=1),
-          dict(_c("root", h=201, tr=2, smp=True), t=2), dict(_c("child", h=202, ps=[201], multi=False), t=2), dict(_c("drop", h=202), t=2), dict(ev="cycle")]
-    for k in range(2, n + 1):
-        st += [dict(_c("root", h=100 + k, tr=2 + k, smp=True), t=1), dict(_c("drop", h=100 + k), t=1), dict(ev="push", t=1)]
-        if k % 4 == 0:
-            st.append(dict(ev="cycle"))
-    st += [dict(_c("child", h=203, ps=[201], multi=False), t=2), dict(_c("drop", h=203), t=2), dict(_c("drop", h=201), t=2), dict(ev="push", t=2),
-           dict(_c("exit"), t=1), dict(_c("exit"), t=2), dict(ev="cycle"), dict(ev="cycle")]
-    return st
-EXTRA["manyroots_c"] = dict(cfg=dict(K=16, cancelable=True), behaviours=[dict(steps=_manyroots(70), prefix=True)])
-EXTRA["manyroots"] = dict(cfg=dict(K=16), behaviours=[dict(steps=_manyroots(70), prefix=True)])
